@@ -217,6 +217,19 @@ def normalise_matrix(A):
         B = dia_as_diags(A)
         if B is not None:
             return B
+    if isinstance(A, ExtObj) and A.qual == "scipy.sparse.spdiags":
+        # spdiags(data, diags, m, n): the same column-aligned storage as dia_matrix((data, diags))
+        data = A.args.get("data") or A.args.get("0")
+        offs = A.args.get("diags") or A.args.get("1")
+        if data is not None and offs is not None:
+            B = dia_as_diags(ExtObj("scipy.sparse.dia_matrix", {"arg1": TupV([data, offs])}, A.node))
+            if B is not None:
+                return B
+    if isinstance(A, ExtObj) and A.qual == "scipy.sparse.diags_array":
+        d = A.args.get("diagonals") or A.args.get("0")
+        o = A.args.get("offsets") or A.args.get("1")
+        if d is not None and o is not None:
+            return ExtObj("scipy.sparse.diags", {"diagonals": d, "offsets": o}, A.node)
     return A
 
 
